@@ -28,9 +28,9 @@ func init() {
 			name             string
 			vals, ids, cap, fs int
 		}
-		cfgs := []cfg{{"Heap[int]", 3, 1, 5, 3}, {"Heap[struct,ties]", 2, 2, 4, 2}}
+		cfgs := []cfg{{"Heap[int]", 3, 1, 6, 3}, {"Heap[struct,ties]", 2, 2, 5, 2}}
 		if thorough {
-			cfgs = []cfg{{"Heap[int]", 4, 1, 7, 4}, {"Heap[struct,ties]", 2, 2, 6, 3}}
+			cfgs = []cfg{{"Heap[int]", 4, 1, 8, 4}, {"Heap[struct,ties]", 3, 2, 7, 3}}
 		}
 		var specs []*seqmc.Spec
 		for _, cf := range cfgs {
